@@ -2072,4 +2072,553 @@ theorem cmdPeriod_refines {s : St} (h : Inv s) :
       (cmdPeriodRun s).2 = (acmdPeriod (abs s)).2 :=
   cmdPeriod_go_refines s.cmdPeriod s h
 
+/-! ### calling a responder's function -/
+
+theorem alookup_aset (a : ASt) (rid : Nat) (r' : AResp) (rid' : Nat) :
+    alookup (aset a rid r') rid' = if rid' = rid then (alookup a rid').map (fun _ => r') else alookup a rid' := by
+  unfold alookup aset
+  simp only
+  induction a.resps with
+  | nil => simp
+  | cons p rest ih =>
+    simp only [List.map_cons, List.find?_cons]
+    by_cases hp : p.1 = rid
+    · have h1 : (p.1 == rid) = true := by simpa using hp
+      simp only [h1, if_true]
+      by_cases h : rid' = rid
+      · subst h
+        have h2 : (p.1 == rid') = true := h1
+        simp [h2]
+      · have h2 : (rid == rid') = false := by simpa using fun e => h e.symm
+        have h3 : (p.1 == rid') = false := by rw [hp]; exact h2
+        simp only [h2, h3, h, if_false]
+        simpa [h] using ih
+    · have h1 : (p.1 == rid) = false := by simpa using hp
+      simp only [h1, Bool.false_eq_true, if_false]
+      by_cases h3 : (p.1 == rid') = true
+      · have : rid' ≠ rid := fun e => hp (by rw [← e]; simpa using h3)
+        simp [h3, this]
+      · simp only [h3, Bool.false_eq_true, if_false] at ih ⊢
+        exact ih
+
+theorem alookup_withDisp (a : ASt) (k : DispKind) (o : List Nat) (ks : List Str) (rid : Nat) :
+    alookup (a.withDisp k o ks) rid = alookup a rid := by
+  unfold alookup; simp
+
+theorem adisable_idem (a : ASt) (rid : Nat) : adisable (adisable a rid) rid = adisable a rid := by
+  cases hl : alookup a rid with
+  | none => simp [adisable, hl]
+  | some r =>
+    cases hen : r.enabled
+    · simp [adisable, hl, hen]
+    · have h1 : alookup (adisable a rid) rid = some { r with enabled := false } := by
+        unfold adisable
+        simp only [hl, hen, Bool.not_true, Bool.false_eq_true, if_false]
+        have : ∀ (x : ASt) (c : List ActKey), alookup ({ x with cmd := c } : ASt) rid = alookup x rid := fun _ _ => rfl
+        rw [this, alookup_withDisp, alookup_aset]
+        simp [hl]
+      generalize adisable a rid = a1 at h1 ⊢
+      simp [adisable, h1]
+
+theorem callFn_refines (env : Env) : ∀ (f : Fn) (s : St) (rid : Nat), Inv s → FnOwned rid f →
+    Inv (callFn s f).1 ∧
+    abs (callFn s f).1 = (if (absFn f).isOnce then adisable (abs s) rid else abs s) ∧
+    (callFn s f).2 = [(absFn f).fid]
+  | .user fid, s, rid, h, _ => ⟨h, rfl, rfl⟩
+  | .oneShot oid r inner, s, rid, h, hown => by
+    obtain ⟨rfl, hown'⟩ := hown
+    have hd := disable_refines h r
+    have ih := callFn_refines env inner (free s r) r hd.1 hown'
+    simp only [callFn, absFn, AFn.isOnce, AFn.fid, if_true]
+    refine ⟨ih.1, ?_, ih.2.2⟩
+    rw [ih.2.1]
+    have e : abs (free s r) = adisable (abs s) r := hd.2
+    rw [e]
+    split
+    · exact adisable_idem _ _
+    · rfl
+
+/-! ### snapshots of dispatcher entries -/
+
+/-- the entry `p.2` is the wrapped function of responder `p.1` as it is now -/
+def EntryView (s : St) (p : Nat × Entry) : Prop :=
+  ∃ r mid, lookupResp s p.1 = some r ∧ p.2 = .matcher mid p.1 r.src r.port r.tmpl r.func
+
+/-- what `disable` keeps of every responder -/
+theorem lookup_disable {s : St} (h : Inv s) (rid : Nat) {x : Nat} {r : Resp} (hx : lookupResp s x = some r) :
+    ∃ r', lookupResp (disable s rid) x = some r' ∧ r'.src = r.src ∧ r'.port = r.port ∧ r'.tmpl = r.tmpl ∧
+      r'.func = r.func ∧ r'.path = r.path ∧ r'.disp = r.disp := by
+  cases hr : lookupResp s rid with
+  | none =>
+    have : disable s rid = s := by simp [disable, hr]
+    rw [this]; exact ⟨r, hx, rfl, rfl, rfl, rfl, rfl, rfl⟩
+  | some r0 =>
+    cases hen : r0.enabled
+    · have : disable s rid = s := by simp [disable, hr, hen]
+      rw [this]; exact ⟨r, hx, rfl, rfl, rfl, rfl, rfl, rfl⟩
+    · obtain ⟨e, _, heq⟩ := disable_eq h hr hen
+      rw [heq, lookupResp_disabledState s rid r0 e hr]
+      by_cases he : x = rid
+      · subst he
+        rw [hr] at hx; cases hx
+        exact ⟨{ r with enabled := false }, by simp, rfl, rfl, rfl, rfl, rfl, rfl⟩
+      · exact ⟨r, by simp [he, hx], rfl, rfl, rfl, rfl, rfl, rfl⟩
+
+theorem view_disable {s : St} (h : Inv s) (rid : Nat) {p : Nat × Entry} (hv : EntryView s p) :
+    EntryView (disable s rid) p := by
+  obtain ⟨r, mid, h1, h2⟩ := hv
+  obtain ⟨r', h1', e1, e2, e3, e4, _, _⟩ := lookup_disable h rid h1
+  exact ⟨r', mid, h1', by rw [e1, e2, e3, e4]; exact h2⟩
+
+theorem view_callFn (env : Env) : ∀ (f : Fn) (s : St) (rid : Nat), Inv s → FnOwned rid f →
+    ∀ p, EntryView s p → EntryView (callFn s f).1 p
+  | .user _, _, _, _, _, _, hv => hv
+  | .oneShot _ r inner, s, rid, h, hown, p, hv => by
+    obtain ⟨rfl, hown'⟩ := hown
+    simp only [callFn]
+    exact view_callFn env inner (free s r) r (disable_refines h r).1 hown' p (view_disable h r hv)
+
+/-- the accepted entries of a snapshot, what they call and which of them free their responder -/
+def hitsOf (env : Env) (d : Delivery) (L : List (Nat × Entry)) : List (Nat × Entry) :=
+  L.filter fun p => p.2.accepts env d
+
+def fidsOf (env : Env) (d : Delivery) (L : List (Nat × Entry)) : List Nat :=
+  (hitsOf env d L).map fun p => (absFn p.2.fn).fid
+
+def onceRids (env : Env) (d : Delivery) (L : List (Nat × Entry)) : List Nat :=
+  ((hitsOf env d L).filter fun p => (absFn p.2.fn).isOnce).map (·.1)
+
+theorem adisableAll_append (a : ASt) : ∀ (l1 l2 : List Nat),
+    adisableAll a (l1 ++ l2) = adisableAll (adisableAll a l1) l2
+  | [], _ => rfl
+  | x :: l1, l2 => by simp only [List.cons_append, adisableAll]; exact adisableAll_append _ l1 l2
+
+theorem runEntries_refines (env : Env) (d : Delivery) : ∀ (L : List (Nat × Entry)) (s : St), Inv s →
+    (∀ p ∈ L, EntryView s p) →
+    Inv (runEntries env s d (L.map (·.2))).1 ∧
+    abs (runEntries env s d (L.map (·.2))).1 = adisableAll (abs s) (onceRids env d L) ∧
+    (runEntries env s d (L.map (·.2))).2 = fidsOf env d L ∧
+    (∀ q, EntryView s q → EntryView (runEntries env s d (L.map (·.2))).1 q)
+  | [], s, h, _ => ⟨h, rfl, rfl, fun _ hq => hq⟩
+  | p :: L, s, h, hv => by
+    have hvp := hv p List.mem_cons_self
+    obtain ⟨r, mid, h1, h2⟩ := hvp
+    have hfn : p.2.fn = r.func := by rw [h2]; rfl
+    have hown : FnOwned p.1 p.2.fn := by rw [hfn]; exact h.own p.1 r h1
+    simp only [List.map_cons, runEntries, callEntry]
+    by_cases hacc : p.2.accepts env d = true
+    · simp only [hacc, if_true]
+      have hc := callFn_refines env p.2.fn s p.1 h hown
+      have hvw := view_callFn env p.2.fn s p.1 h hown
+      have ih := runEntries_refines env d L (callFn s p.2.fn).1 hc.1
+        (fun q hq => hvw q (hv q (List.mem_cons_of_mem _ hq)))
+      refine ⟨ih.1, ?_, ?_, fun q hq => ih.2.2.2 q (hvw q hq)⟩
+      · rw [ih.2.1, hc.2.1]
+        simp only [onceRids, hitsOf, List.filter_cons, hacc, if_true]
+        by_cases ho : (absFn p.2.fn).isOnce = true
+        · simp [ho, adisableAll]
+        · simp [ho]
+      · rw [ih.2.2.1, hc.2.2]
+        simp [fidsOf, hitsOf, List.filter_cons, hacc]
+    · simp only [hacc, Bool.false_eq_true, if_false]
+      have ih := runEntries_refines env d L s h (fun q hq => hv q (List.mem_cons_of_mem _ hq))
+      refine ⟨ih.1, ?_, ?_, ih.2.2.2⟩
+      · rw [ih.2.1]; simp [onceRids, hitsOf, List.filter_cons, hacc]
+      · rw [ih.2.2.1]; simp [fidsOf, hitsOf, List.filter_cons, hacc]
+
+/-! ### the abstract hits, seen from the concrete state -/
+
+def pairAbs (s : St) (p : Nat × Entry) : Option (Nat × AResp) :=
+  (lookupResp s p.1).map fun r => (p.1, absResp r)
+
+theorem aenabled_abs (s : St) (k : DispKind) :
+    aenabled (abs s) k = (s.disp k).wrapped.filterMap (pairAbs s) := by
+  unfold aenabled
+  rw [abs_ord, List.filterMap_map]
+  congr 1
+  funext p
+  simp [Function.comp, pairAbs, alookup_abs, Option.map_map]
+  rfl
+
+theorem hits_abs (env : Env) (d : Delivery) (s : St) (key : Str) : ∀ (W : List (Nat × Entry)),
+    (∀ p ∈ W, EntryView s p) →
+    (((W.filterMap (pairAbs s)).filter (fun q => q.2.path == key && q.2.accepts env d)).map (·.2.func.fid)
+        = fidsOf env d (W.filter (fun p => hasPath s p.1 key))) ∧
+    ((((W.filterMap (pairAbs s)).filter (fun q => q.2.path == key && q.2.accepts env d)).filter
+        (·.2.func.isOnce)).map (·.1) = onceRids env d (W.filter (fun p => hasPath s p.1 key)))
+  | [], _ => ⟨rfl, rfl⟩
+  | p :: W, hv => by
+    obtain ⟨r, mid, h1, h2⟩ := hv p List.mem_cons_self
+    have ih := hits_abs env d s key W (fun q hq => hv q (List.mem_cons_of_mem _ hq))
+    have hpa : pairAbs s p = some (p.1, absResp r) := by simp [pairAbs, h1]
+    have hhp : hasPath s p.1 key = (r.path == key) := by simp [hasPath, h1]
+    have hacc : p.2.accepts env d = (absResp r).accepts env d := by
+      rw [h2]; rfl
+    have hfn : absFn p.2.fn = (absResp r).func := by rw [h2]; rfl
+    simp only [List.filterMap_cons, hpa, List.filter_cons, hhp]
+    have hpath : (absResp r).path = r.path := rfl
+    by_cases hk : (r.path == key) = true
+    · simp only [hk, if_true, hpath, Bool.true_and]
+      by_cases ha : (absResp r).accepts env d = true
+      · simp only [ha, if_true, List.map_cons, fidsOf, onceRids, hitsOf, List.filter_cons, hacc, hfn]
+        constructor
+        · simp only [List.cons.injEq, true_and]
+          exact ih.1
+        · by_cases ho : (absResp r).func.isOnce = true
+          · simp only [ho, if_true, List.map_cons, List.cons.injEq, true_and]
+            exact ih.2
+          · simp only [ho, Bool.false_eq_true, if_false]
+            exact ih.2
+      · simp only [ha, Bool.false_eq_true, if_false, fidsOf, onceRids, hitsOf, List.filter_cons, hacc]
+        exact ih
+    · simp only [hk, Bool.false_eq_true, if_false, hpath, Bool.false_and]
+      exact ih
+
+/-! ### exact dispatch -/
+
+theorem views_of_wrapped {s : St} {k : DispKind} (hd : DInv s k) : ∀ p ∈ (s.disp k).wrapped, EntryView s p := by
+  intro p hp
+  obtain ⟨r, mid, h1, _, _, h4⟩ := hd.wr p hp
+  exact ⟨r, mid, h1, h4⟩
+
+theorem dispatchExact_refines (env : Env) (d : Delivery) {s : St} (h : Inv s) :
+    Inv (dispatchExact env s d).1 ∧
+    abs (dispatchExact env s d).1 = (adispatch env (abs s) .exact d).1 ∧
+    (dispatchExact env s d).2 = (adispatch env (abs s) .exact d).2.called := by
+  have hd := h.d .exact
+  have hact := hd.act d.addr
+  have hv := views_of_wrapped hd
+  unfold dispatchExact
+  have e : lookupKey d.addr s.exact.active = lookupKey d.addr (s.disp .exact).active := rfl
+  rw [e, hact]
+  have hr := runEntries_refines env d ((s.disp .exact).wrapped.filter (fun p => hasPath s p.1 d.addr)) s h
+    (fun p hp => hv p (List.mem_filter.mp hp).1)
+  have hh := hits_abs env d s d.addr (s.disp .exact).wrapped hv
+  refine ⟨hr.1, ?_, ?_⟩
+  · rw [hr.2.1]
+    simp only [adispatch, ahits, aenabled_abs]
+    rw [hh.2]
+  · rw [hr.2.2.1]
+    simp only [adispatch, ahits, aenabled_abs]
+    rw [hh.1]
+
+/-! ### matching dispatch -/
+
+theorem hasPath_disable {s : St} (h : Inv s) (rid x : Nat) (key : Str) :
+    hasPath (disable s rid) x key = hasPath s x key := by
+  cases hr : lookupResp s rid with
+  | none => have : disable s rid = s := by simp [disable, hr]
+            rw [this]
+  | some r =>
+    cases hen : r.enabled
+    · have : disable s rid = s := by simp [disable, hr, hen]
+      rw [this]
+    · obtain ⟨e, _, heq⟩ := disable_eq h hr hen
+      rw [heq]
+      unfold hasPath
+      rw [lookupResp_disabledState s rid r e hr]
+      by_cases he : x = rid
+      · subst he; simp [hr]
+      · simp [he]
+
+/-- the entries of dispatcher `k` with path `key`, as (responder, entry) pairs in registration order -/
+def keyPairs (s : St) (k : DispKind) (key : Str) : List (Nat × Entry) :=
+  (s.disp k).wrapped.filter fun p => hasPath s p.1 key
+
+theorem keyPairs_disable {s : St} (h : Inv s) (k : DispKind) {rid : Nat} {key key' : Str}
+    (hp : hasPath s rid key = true) (hne : key' ≠ key) :
+    keyPairs (disable s rid) k key' = keyPairs s k key' := by
+  unfold keyPairs
+  have hhp : (fun (p : Nat × Entry) => hasPath (disable s rid) p.1 key') = fun p => hasPath s p.1 key' := by
+    funext p; exact hasPath_disable h rid p.1 key'
+  rw [hhp]
+  cases hr : lookupResp s rid with
+  | none => simp [hasPath, hr] at hp
+  | some r =>
+    have hpath : r.path = key := by simpa [hasPath, hr] using hp
+    cases hen : r.enabled
+    · have : disable s rid = s := by simp [disable, hr, hen]
+      rw [this]
+    · obtain ⟨e, _, heq⟩ := disable_eq h hr hen
+      rw [heq, disp_disabledState]
+      split
+      · rename_i hk; subst hk
+        simp only
+        rw [List.filter_filter]
+        apply List.filter_congr
+        intro p _
+        by_cases he : p.1 = rid
+        · have : hasPath s p.1 key' = false := by
+            rw [he]; simp only [hasPath, hr, hpath]
+            simpa using fun e => hne e.symm
+          simp [this]
+        · have : (p.1 != rid) = true := by simpa using he
+          simp [this]
+      · rfl
+
+theorem keyPairs_callFn (k : DispKind) {key key' : Str} (hne : key' ≠ key) : ∀ (f : Fn) (s : St) (rid : Nat),
+    Inv s → FnOwned rid f → hasPath s rid key = true →
+    keyPairs (callFn s f).1 k key' = keyPairs s k key' ∧
+      (∀ x key0, hasPath (callFn s f).1 x key0 = hasPath s x key0)
+  | .user _, _, _, _, _, _ => ⟨rfl, fun _ _ => rfl⟩
+  | .oneShot _ r inner, s, rid, h, hown, hp => by
+    obtain ⟨rfl, hown'⟩ := hown
+    simp only [callFn]
+    have hd := disable_refines h r
+    have hp' : hasPath (free s r) r key = true := by
+      show hasPath (disable s r) r key = true
+      rw [hasPath_disable h]; exact hp
+    have ih := keyPairs_callFn k hne inner (free s r) r hd.1 hown' hp'
+    refine ⟨?_, ?_⟩
+    · rw [ih.1]; exact keyPairs_disable h k hp hne
+    · intro x key0
+      rw [ih.2]; exact hasPath_disable h r x key0
+
+theorem keyPairs_runEntries (env : Env) (d : Delivery) (k : DispKind) {key key' : Str} (hne : key' ≠ key) :
+    ∀ (L : List (Nat × Entry)) (s : St), Inv s → (∀ p ∈ L, EntryView s p ∧ hasPath s p.1 key = true) →
+    keyPairs (runEntries env s d (L.map (·.2))).1 k key' = keyPairs s k key'
+  | [], _, _, _ => rfl
+  | p :: L, s, h, hv => by
+    obtain ⟨⟨r, mid, h1, h2⟩, hpk⟩ := hv p List.mem_cons_self
+    have hfn : p.2.fn = r.func := by rw [h2]; rfl
+    have hown : FnOwned p.1 p.2.fn := by rw [hfn]; exact h.own p.1 r h1
+    simp only [List.map_cons, runEntries, callEntry]
+    by_cases hacc : p.2.accepts env d = true
+    · simp only [hacc, if_true]
+      have hc := callFn_refines env p.2.fn s p.1 h hown
+      have hk := keyPairs_callFn k hne p.2.fn s p.1 h hown hpk
+      have hvw := view_callFn env p.2.fn s p.1 h hown
+      have ih := keyPairs_runEntries env d k hne L (callFn s p.2.fn).1 hc.1 (fun q hq => by
+        obtain ⟨v1, v2⟩ := hv q (List.mem_cons_of_mem _ hq)
+        exact ⟨hvw q v1, by rw [hk.2]; exact v2⟩)
+      rw [ih, hk.1]
+    · simp only [hacc, Bool.false_eq_true, if_false]
+      exact keyPairs_runEntries env d k hne L s h (fun q hq => hv q (List.mem_cons_of_mem _ hq))
+
+def matchKey (d : Delivery) (key : Str) : Bool := oscMatch d.addr key == some true
+
+theorem oscMatch_total (p a : Str) : ∃ b, oscMatch p a = some b := by
+  have hc : catchesReError = true := rfl
+  unfold oscMatch
+  cases reParse (rewrite p) with
+  | ok r => exact ⟨_, rfl⟩
+  | error e => exact ⟨false, by simp [hc]⟩
+
+theorem patternKeys_refines (env : Env) (d : Delivery) : ∀ (ks : List Str) (s : St), Inv s → ks.Nodup →
+    ∃ s' fids, dispatchPatternKeys env d s ks = some (s', fids) ∧ Inv s' ∧
+      abs s' = adisableAll (abs s)
+        ((ks.filter (matchKey d)).flatMap fun key => onceRids env d (keyPairs s .pattern key)) ∧
+      fids = (ks.filter (matchKey d)).flatMap fun key => fidsOf env d (keyPairs s .pattern key)
+  | [], s, h, _ => ⟨s, [], rfl, h, rfl, rfl⟩
+  | key :: ks, s, h, hnd => by
+    simp only [List.nodup_cons] at hnd
+    obtain ⟨b, hb⟩ := oscMatch_total d.addr key
+    unfold dispatchPatternKeys
+    rw [hb]
+    cases b with
+    | false =>
+      simp only
+      obtain ⟨s', fids, h1, h2, h3, h4⟩ := patternKeys_refines env d ks s h hnd.2
+      have hm : matchKey d key = false := by simp [matchKey, hb]
+      exact ⟨s', fids, h1, h2, by simp [List.filter_cons, hm, h3], by simp [List.filter_cons, hm, h4]⟩
+    | true =>
+      simp only
+      have hm : matchKey d key = true := by simp [matchKey, hb]
+      have hd := h.d .pattern
+      have hact : lookupKey key s.pattern.active = (keyPairs s .pattern key).map (·.2) := hd.act key
+      rw [hact]
+      have hv : ∀ p ∈ keyPairs s .pattern key, EntryView s p ∧ hasPath s p.1 key = true := by
+        intro p hp
+        have := List.mem_filter.mp hp
+        exact ⟨views_of_wrapped hd p this.1, this.2⟩
+      have hr := runEntries_refines env d (keyPairs s .pattern key) s h (fun p hp => (hv p hp).1)
+      obtain ⟨s', fids, h1, h2, h3, h4⟩ := patternKeys_refines env d ks _ hr.1 hnd.2
+      have hsame : ∀ key' ∈ ks, keyPairs (runEntries env s d ((keyPairs s .pattern key).map (·.2))).1 .pattern key'
+          = keyPairs s .pattern key' := by
+        intro key' hk'
+        have hne : key' ≠ key := fun e => hnd.1 (e ▸ hk')
+        exact keyPairs_runEntries env d .pattern hne _ s h hv
+      have hflat : ∀ (g : List (Nat × Entry) → List Nat),
+          ((ks.filter (matchKey d)).flatMap fun key' =>
+              g (keyPairs (runEntries env s d ((keyPairs s .pattern key).map (·.2))).1 .pattern key'))
+            = (ks.filter (matchKey d)).flatMap fun key' => g (keyPairs s .pattern key') := by
+        intro g
+        have : ∀ (l : List Str), (∀ x ∈ l, x ∈ ks) →
+            (l.flatMap fun key' =>
+              g (keyPairs (runEntries env s d ((keyPairs s .pattern key).map (·.2))).1 .pattern key'))
+            = l.flatMap fun key' => g (keyPairs s .pattern key') := by
+          intro l
+          induction l with
+          | nil => intro _; rfl
+          | cons x xs ihx =>
+            intro hx
+            simp only [List.flatMap_cons]
+            rw [hsame x (hx x List.mem_cons_self), ihx (fun y hy => hx y (List.mem_cons_of_mem _ hy))]
+        exact this _ (fun x hx => (List.mem_filter.mp hx).1)
+      refine ⟨s', (runEntries env s d ((keyPairs s .pattern key).map (·.2))).2 ++ fids, ?_, h2, ?_, ?_⟩
+      · rw [h1]
+      · rw [h3, hr.2.1, hflat]
+        simp only [List.filter_cons, hm, if_true, List.flatMap_cons]
+        rw [adisableAll_append]
+      · rw [h4, hr.2.2.1, hflat]
+        simp only [List.filter_cons, hm, if_true, List.flatMap_cons]
+
+theorem dispatchPattern_refines (env : Env) (d : Delivery) {s : St} (h : Inv s) :
+    Inv (dispatchPattern env s d).1 ∧
+    abs (dispatchPattern env s d).1 = (adispatch env (abs s) .pattern d).1 ∧
+    (dispatchPattern env s d).2 = (adispatch env (abs s) .pattern d).2 := by
+  have hd := h.d .pattern
+  have hv := views_of_wrapped hd
+  have hks : (s.pattern.active.map (fun (x : Str × List Entry) => x.1)).Nodup := hd.keys
+  obtain ⟨s', fids, h1, h2, h3, h4⟩ := patternKeys_refines env d _ s h hks
+  have hk : (abs s).keysP = s.pattern.active.map (·.1) := rfl
+  -- the abstract hits, key by key
+  have hfid : (ahits env (abs s) .pattern d).map (·.2.func.fid)
+      = ((s.pattern.active.map (·.1)).filter (matchKey d)).flatMap fun key => fidsOf env d (keyPairs s .pattern key) := by
+    simp only [ahits, hk, List.map_flatMap, aenabled_abs]
+    have : ∀ (l : List Str), (l.flatMap fun key =>
+        ((((s.disp .pattern).wrapped.filterMap (pairAbs s)).filter
+          (fun p => p.2.path == key && p.2.accepts env d)).map (·.2.func.fid)))
+        = l.flatMap fun key => fidsOf env d (keyPairs s .pattern key) := by
+      intro l
+      induction l with
+      | nil => rfl
+      | cons x xs ih => simp only [List.flatMap_cons, ih, (hits_abs env d s x _ hv).1, keyPairs]
+    exact this _
+  have honce : ((ahits env (abs s) .pattern d).filter (·.2.func.isOnce)).map (·.1)
+      = ((s.pattern.active.map (·.1)).filter (matchKey d)).flatMap fun key => onceRids env d (keyPairs s .pattern key) := by
+    simp only [ahits, hk, List.filter_flatMap, List.map_flatMap, aenabled_abs]
+    have : ∀ (l : List Str), (l.flatMap fun key =>
+        (((((s.disp .pattern).wrapped.filterMap (pairAbs s)).filter
+          (fun p => p.2.path == key && p.2.accepts env d)).filter (·.2.func.isOnce)).map (·.1)))
+        = l.flatMap fun key => onceRids env d (keyPairs s .pattern key) := by
+      intro l
+      induction l with
+      | nil => rfl
+      | cons x xs ih => simp only [List.flatMap_cons, ih, (hits_abs env d s x _ hv).2, keyPairs]
+    exact this _
+  unfold dispatchPattern
+  rw [h1]
+  simp only [adispatch]
+  refine ⟨h2, ?_, ?_⟩
+  · rw [h3, honce]
+  · rw [h4, hfid]
+
+theorem registered_abs {s : St} (h : Inv s) (k : DispKind) : (s.disp k).registered = aregistered (abs s) k := by
+  rw [(h.d k).reg]
+  unfold aregistered
+  rw [abs_keys]
+  cases (s.disp k).active <;> simp [akeys]
+
+theorem dispatchMsg_refines (env : Env) (patFirst : Bool) (d : Delivery) {s : St} (h : Inv s) :
+    Inv (dispatchMsg env patFirst s d).1 ∧
+    abs (dispatchMsg env patFirst s d).1 = (adispatchMsg env patFirst (abs s) d).1 ∧
+    (dispatchMsg env patFirst s d).2 = (adispatchMsg env patFirst (abs s) d).2 := by
+  have hE : s.exact.registered = aregistered (abs s) .exact := registered_abs h .exact
+  have hP : s.pattern.registered = aregistered (abs s) .pattern := registered_abs h .pattern
+  unfold dispatchMsg adispatchMsg
+  simp only [hE, hP]
+  cases patFirst
+  · -- exact first
+    simp only [Bool.false_eq_true, if_false, List.filter_cons, List.filter_nil]
+    cases hre : aregistered (abs s) .exact <;> cases hrp : aregistered (abs s) .pattern
+    · simp only [Bool.false_eq_true, if_false, adispatchList]; exact ⟨h, trivial, trivial⟩
+    · simp only [Bool.false_eq_true, if_false, if_true, adispatchList]
+      have p := dispatchPattern_refines env d h
+      refine ⟨p.1, ?_, ?_⟩
+      · simpa using p.2.1
+      · simp [p.2.2]
+    · simp only [if_true, Bool.false_eq_true, if_false, adispatchList]
+      have e := dispatchExact_refines env d h
+      refine ⟨e.1, ?_, ?_⟩
+      · simpa using e.2.1
+      · simp [e.2.2, adispatch]
+    · simp only [if_true, adispatchList]
+      have e := dispatchExact_refines env d h
+      have p := dispatchPattern_refines env d e.1
+      rw [e.2.1] at p
+      refine ⟨p.1, ?_, ?_⟩
+      · simpa using p.2.1
+      · simp [e.2.2, p.2.2, adispatch]
+  · -- matching dispatcher first
+    simp only [if_true, List.filter_cons, List.filter_nil]
+    cases hre : aregistered (abs s) .exact <;> cases hrp : aregistered (abs s) .pattern
+    · simp only [Bool.false_eq_true, if_false, adispatchList]; exact ⟨h, trivial, trivial⟩
+    · simp only [if_true, Bool.false_eq_true, if_false, adispatchList]
+      have p := dispatchPattern_refines env d h
+      have hr : (dispatchPattern env s d).2.raised = false := by rw [p.2.2]; rfl
+      simp only [hr, Bool.false_eq_true, if_false]
+      refine ⟨p.1, ?_, ?_⟩
+      · simpa using p.2.1
+      · simp [p.2.2]
+    · simp only [Bool.false_eq_true, if_false, if_true, adispatchList]
+      have e := dispatchExact_refines env d h
+      refine ⟨e.1, ?_, ?_⟩
+      · simpa using e.2.1
+      · simp [e.2.2, adispatch]
+    · simp only [if_true, adispatchList]
+      have p := dispatchPattern_refines env d h
+      have hr : (dispatchPattern env s d).2.raised = false := by rw [p.2.2]; rfl
+      simp only [hr, Bool.false_eq_true, if_false]
+      have e := dispatchExact_refines env d p.1
+      rw [p.2.1] at e
+      refine ⟨e.1, ?_, ?_⟩
+      · simpa using e.2.1
+      · simp [p.2.2, e.2.2, adispatch]
+
+/-! ### whole histories -/
+
+open Sc3Verif.C06 (DMsg decodePacket)
+
+theorem dispatchAll_refines (env : Env) (cfg : RecvCfg) (sender : Sender) :
+    ∀ (msgs : List (Option Nat × DMsg)) (s : St), Inv s →
+    Inv (dispatchAll env cfg sender s msgs).1 ∧
+    abs (dispatchAll env cfg sender s msgs).1 = (adispatchAll env cfg sender (abs s) msgs).1 ∧
+    (dispatchAll env cfg sender s msgs).2 = (adispatchAll env cfg sender (abs s) msgs).2
+  | [], s, h => ⟨h, rfl, rfl⟩
+  | tm :: rest, s, h => by
+    have hm := dispatchMsg_refines env cfg.patFirst (mkDelivery cfg sender tm) h
+    have ih := dispatchAll_refines env cfg sender rest _ hm.1
+    simp only [dispatchAll, adispatchAll]
+    rw [hm.2.1] at ih
+    exact ⟨ih.1, ih.2.1, by rw [ih.2.2, hm.2.2]⟩
+
+theorem step_refines (env : Env) {s : St} (h : Inv s) (op : Op) :
+    Inv (step env s op).1 ∧ abs (step env s op).1 = (astep env (abs s) op).1 ∧
+      (step env s op).2 = (astep env (abs s) op).2 := by
+  cases op with
+  | new rid kind path src port tmpl fid =>
+    have := new_refines h rid kind path src port tmpl fid
+    exact ⟨this.1, this.2, rfl⟩
+  | enable rid => have := enable_refines h rid; exact ⟨this.1, this.2, rfl⟩
+  | disable rid => have := disable_refines h rid; exact ⟨this.1, this.2, rfl⟩
+  | free rid => have := disable_refines h rid; exact ⟨this.1, this.2, rfl⟩
+  | oneShot rid => have := oneShot_refines h rid; exact ⟨this.1, this.2, rfl⟩
+  | setFunc rid fid => have := setFuncUser_refines h rid fid; exact ⟨this.1, this.2, rfl⟩
+  | permanent rid v => have := permanent_refines h rid v; exact ⟨this.1, this.2, rfl⟩
+  | cmdPeriod =>
+    have := cmdPeriod_refines h
+    simp only [step, astep]
+    exact ⟨this.1, this.2.1, by rw [this.2.2]⟩
+  | cmdAdd aid => have := withCmd_refines h (cmdAdd (.user aid) s.cmdPeriod); exact ⟨this.1, this.2, rfl⟩
+  | cmdRemove aid => have := withCmd_refines h (cmdRemove (.user aid) s.cmdPeriod); exact ⟨this.1, this.2, rfl⟩
+  | recv cfg data sender =>
+    simp only [step, astep, handleRequest]
+    cases decodePacket data with
+    | error e => exact ⟨h, rfl, rfl⟩
+    | ok msgs =>
+      have := dispatchAll_refines env cfg sender msgs s h
+      exact ⟨this.1, this.2.1, by simp only; rw [this.2.2]⟩
+
+theorem run_refines (env : Env) : ∀ (ops : List Op) (s : St), Inv s →
+    Inv (run env s ops).1 ∧ abs (run env s ops).1 = (arun env (abs s) ops).1 ∧
+      (run env s ops).2 = (arun env (abs s) ops).2
+  | [], s, h => ⟨h, rfl, rfl⟩
+  | op :: ops, s, h => by
+    have hs := step_refines env h op
+    have ih := run_refines env ops _ hs.1
+    simp only [run, arun]
+    rw [hs.2.1] at ih
+    exact ⟨ih.1, ih.2.1, by rw [ih.2.2, hs.2.2]⟩
+
 end Sc3Verif.C18
